@@ -358,6 +358,14 @@ def op_twin(sim: Sim, a) -> str:
         return "skip"
     if method == "set_cell_formatting" and (r >= t0.nrows or c >= t0.ncols or V.kind_of(t0.rows[r][c]) != "NumberCell" or isinstance(t0.rows[r][c], bool)):
         return "skip"
+    for tmx in (t0, t1):
+        mm = tmx.merge_at(r, c)
+        if mm is not None and (mm[0], mm[1]) != (r, c):
+            return "skip"  # bound (as in C12): position-taking calls are not sent to the covered cells of a merged range
+    if method == "set_cell_border" and (t0.merges or t1.merges):
+        return "skip"
+    if t0.merges != t1.merges:
+        return "skip"
     v = V.dec(a.get("v")) if method == "write" else None
     grew = r >= t0.nrows or c >= t0.ncols
     for tm in (t0, t1):
